@@ -4,7 +4,10 @@ package sig
 import (
 	"fmt"
 	"hash/fnv"
+	"reflect"
+	"sort"
 	"strings"
+	"unsafe"
 
 	"github.com/gopacket/gopacket"
 )
@@ -105,4 +108,118 @@ func Cheap(p gopacket.Packet) string {
 	}
 	fmt.Fprintf(&b, " T:%v", p.Metadata().Truncated)
 	return b.String()
+}
+
+// Deep renders every field of a value (exported and unexported, through
+// pointers, slices by content, nil slice == empty slice) into a canonical
+// string. Fields named in skip are omitted.
+func Deep(v any, skip map[string]bool) string {
+	var b strings.Builder
+	deep(&b, reflect.ValueOf(v), skip, 0)
+	return b.String()
+}
+
+// DeepExported is Deep restricted to exported fields (at every level): the
+// state a user of the value can observe directly.
+func DeepExported(v any, skip map[string]bool) string {
+	s := map[string]bool{"\x00exported-only": true}
+	for k, x := range skip {
+		s[k] = x
+	}
+	var b strings.Builder
+	deep(&b, reflect.ValueOf(v), s, 0)
+	return b.String()
+}
+
+func deep(b *strings.Builder, v reflect.Value, skip map[string]bool, depth int) {
+	if depth > 8 {
+		b.WriteString("...")
+		return
+	}
+	if !v.IsValid() {
+		b.WriteString("<invalid>")
+		return
+	}
+	switch v.Kind() {
+	case reflect.Ptr:
+		if v.IsNil() {
+			b.WriteString("nil")
+			return
+		}
+		b.WriteByte('&')
+		deep(b, v.Elem(), skip, depth+1)
+	case reflect.Interface:
+		if v.IsNil() {
+			b.WriteString("nil")
+			return
+		}
+		b.WriteString(v.Elem().Type().String())
+		b.WriteByte(':')
+		deep(b, v.Elem(), skip, depth+1)
+	case reflect.Struct:
+		t := v.Type()
+		b.WriteString(t.Name())
+		b.WriteByte('{')
+		for i := 0; i < v.NumField(); i++ {
+			f := t.Field(i)
+			if skip[f.Name] || skip[f.Type.String()] {
+				continue
+			}
+			if skip["\x00exported-only"] && f.PkgPath != "" && !f.Anonymous {
+				continue
+			}
+			fv := v.Field(i)
+			if !fv.CanInterface() {
+				if !fv.CanAddr() {
+					// make the struct addressable to read unexported fields
+					c := reflect.New(t).Elem()
+					c.Set(v)
+					fv = c.Field(i)
+				}
+				fv = reflect.NewAt(fv.Type(), unsafe.Pointer(fv.UnsafeAddr())).Elem()
+			}
+			b.WriteString(f.Name)
+			b.WriteByte('=')
+			deep(b, fv, skip, depth+1)
+			b.WriteByte(' ')
+		}
+		b.WriteByte('}')
+	case reflect.Slice, reflect.Array:
+		if v.Kind() == reflect.Slice && v.Type().Elem().Kind() == reflect.Uint8 {
+			fmt.Fprintf(b, "x%x", v.Bytes())
+			return
+		}
+		fmt.Fprintf(b, "[%d:", v.Len())
+		for i := 0; i < v.Len(); i++ {
+			deep(b, v.Index(i), skip, depth+1)
+			b.WriteByte(',')
+		}
+		b.WriteByte(']')
+	case reflect.Map:
+		keys := v.MapKeys()
+		ks := make([]string, len(keys))
+		for i, k := range keys {
+			var kb strings.Builder
+			deep(&kb, k, skip, depth+1)
+			var vb strings.Builder
+			deep(&vb, v.MapIndex(k), skip, depth+1)
+			ks[i] = kb.String() + "=>" + vb.String()
+		}
+		sort.Strings(ks)
+		fmt.Fprintf(b, "map%v", ks)
+	case reflect.Func, reflect.Chan, reflect.UnsafePointer:
+		b.WriteString("-")
+	case reflect.String:
+		fmt.Fprintf(b, "%q", v.String())
+	case reflect.Bool:
+		fmt.Fprintf(b, "%v", v.Bool())
+	case reflect.Int, reflect.Int8, reflect.Int16, reflect.Int32, reflect.Int64:
+		fmt.Fprintf(b, "%d", v.Int())
+	case reflect.Uint, reflect.Uint8, reflect.Uint16, reflect.Uint32, reflect.Uint64, reflect.Uintptr:
+		fmt.Fprintf(b, "%d", v.Uint())
+	case reflect.Float32, reflect.Float64:
+		fmt.Fprintf(b, "%v", v.Float())
+	default:
+		fmt.Fprintf(b, "?%v", v.Kind())
+	}
 }
